@@ -63,6 +63,43 @@ Theorem C17_reject_complete : forall k ws t v,
   exists e, snd (ser_out k ws t v) = Some e.
 Proof. exact reject_complete. Qed.
 
+(* ---- the dynamic carrier ------------------------------------------------------------------ *)
+(* CqlValue decides per value.  [dyn_fits t v] (Model/Accept.v section 8) says that the CqlValue v
+   is a value of column type t, at every depth. *)
+
+(* a CqlValue that is not a value of the column type - wherever the misfit sits - is refused,
+   outside the known class.  Full-strength statement, FALSE for the code as it is (F2b):
+     forall t ws v, dyn_fits t v = false -> exists e, snd (ser_out KCqlValue ws t (VLeaf v)) = Some e. *)
+Theorem C17_dynamic_reject : forall t ws v, dyn_fits t v = false -> dyn_known t v = false ->
+  exists e, snd (ser_out KCqlValue ws t (VLeaf v)) = Some e.
+Proof. intros t ws v H K. exact (dyn_reject t ws v H K). Qed.
+
+(* the known class on the dynamic path: CqlValue::Vector([Int(7), Empty]) bound to vector<int, 2>
+   is accepted and comes out as a 4-byte (short) vector *)
+Theorem C17_dynamic_reject_refuted :
+  exists t v, dyn_fits t v = false /\ dyn_known t v = true /\
+              ser_out KCqlValue true t (VLeaf v) = ([0; 0; 0; 4; 0; 0; 0; 7], None).
+Proof.
+  exists (TVector (TNative NInt) 2), (CVector [CInt 7; CEmpty]). vm_compute. repeat split; reflexivity.
+Qed.
+
+(* a value of the type is never refused by a type check; only the i32 limits of the wire format
+   can still stop it *)
+Theorem C17_dynamic_accept : forall t ws v e, dyn_fits t v = true ->
+  snd (ser_out KCqlValue ws t (VLeaf v)) = Some e -> is_size_err e = true.
+Proof. intros t ws v e H He. exact (dyn_accept t ws v H e He). Qed.
+
+(* the buffer-level dynamic serialiser is the serialiser of Model/Cql.v (property C01): same
+   bytes ([out_of ws c] = c behind its 4-byte length when the writer is sized), same error leaf.
+   [all_leaves small_leaf v]: inet / uuid / timeuuid payloads of the model value are not longer
+   than i32::MAX bytes (in Rust they are 4 or 16 bytes). *)
+Theorem C17_dynamic_is_C01 : forall t ws v, all_leaves small_leaf v = true ->
+  match ser_value ws t v with
+  | Ok c => ser_out KCqlValue ws t (VLeaf v) = (out_of ws c, None)
+  | Err e => snd (ser_out KCqlValue ws t (VLeaf v)) = Some (KE e)
+  end.
+Proof. intros t ws v H. exact (ser_dyn_value t ws v H). Qed.
+
 (* ---- nothing of a failed value stays --------------------------------------------------- *)
 
 (* serialisation only appends, and what it appends (also when it fails half-way) does not depend
@@ -165,6 +202,17 @@ Example C17_ex_values :
   snd (ser_out k true (TTuple [tint; TSet tint]) v) = Some (KE SE_MismatchedType).
 Proof. vm_compute. repeat split; reflexivity. Qed.
 
+(* a misfit three levels down (a text inside list<int> inside a UDT field inside a map value)
+   is refused; the same value with an int there is accepted *)
+Example C17_ex_dynamic :
+  let t := TMap tint (TUdt [107] [116] [([97], tint); ([98], TList tint)]) in
+  let bad := CMap [(CInt 1, CUdt [107] [116] [([98], Some (CList [CInt 1; CText [120]])); ([97], None)])] in
+  let good := CMap [(CInt 1, CUdt [107] [116] [([98], Some (CList [CInt 1; CInt 2])); ([97], None)])] in
+  dyn_fits t bad = false /\ dyn_known t bad = false /\ snd (ser_out KCqlValue true t (VLeaf bad)) = Some (KE SE_MismatchedType) /\
+  dyn_fits t good = true /\ snd (ser_out KCqlValue true t (VLeaf good)) = None /\
+  all_leaves small_leaf bad = true /\ ser_value true t bad = Err SE_MismatchedType.
+Proof. vm_compute. repeat split; reflexivity. Qed.
+
 Print Assumptions C17_matrix_ser.
 Print Assumptions C17_matrix_ser_refuted.
 Print Assumptions C17_documented_accepted.
@@ -172,6 +220,10 @@ Print Assumptions C17_matrix_deser.
 Print Assumptions C17_row_check.
 Print Assumptions C17_accept_sound.
 Print Assumptions C17_reject_complete.
+Print Assumptions C17_dynamic_reject.
+Print Assumptions C17_dynamic_reject_refuted.
+Print Assumptions C17_dynamic_accept.
+Print Assumptions C17_dynamic_is_C01.
 Print Assumptions C17_append_only.
 Print Assumptions C17_no_bytes.
 Print Assumptions C17_rollback.
